@@ -2,6 +2,8 @@ import TongoProofs.Lemmas.HashmapEncode
 import TongoProofs.Lemmas.HashmapPut
 import TongoProofs.Lemmas.HashmapSigned
 import TongoProofs.Lemmas.HashmapAug
+import TongoProofs.Lemmas.HashmapPruned
+import TongoProofs.Lemmas.HashmapSound
 /-! # Property C05 — dictionaries (Hashmap / HashmapE) preserve their key→value mapping
 
 Model: `TongoModel/Hashmap.lean` (mirror of tlb/hashmap.go after the repairs recorded in known_findings.txt).
@@ -253,19 +255,153 @@ theorem decode_then_put_encodes (C : Codec V) (pay : V → List Bool × List Cel
   exact get_put lt t.meaning k v k'
 
 /-- `HashmapAugE` (decode side only; tongo has no encoder for it): every valid augmented dictionary, any label forms,
-decodes to the key→value mapping it represents; the extras (per node and the root extra `y0`) are consumed and dropped. -/
-theorem aug_decode_any_valid {Y : Type} (skipX : List Bool → List Cell → Outcome (List Bool × List Cell))
+decodes to the key→value mapping it represents, together with the tree of per-node extras exactly as stored and the root
+extra `y0` of `ahme_root`. `xdec` / `xpay` are the abstract codec of the extras. -/
+theorem aug_decode_any_valid {Y : Type} (xdec : XDec Y) (zero : Y)
     (C : Codec V) (pay : V → List Bool × List Cell) (xpay : Y → List Bool × List Cell)
-    (hskip : SkipsExtra skipX xpay) (n : Nat) (hn : n < 2 ^ 64)
+    (hx : DecodesExtra xdec xpay) (n : Nat) (hn : n < 2 ^ 64)
     (t : ATree V Y) (hv : t.Valid n) (hdec : ∀ kv ∈ t.meaning, DecodesValue C pay kv.2) (y0 : Y) :
-    unmarshalAugE skipX C n (Cell.ordinary (true :: (xpay y0).1) (t.toCell pay xpay n :: (xpay y0).2)) = .ok t.meaning := by
+    unmarshalAugE xdec zero C n (Cell.ordinary (true :: (xpay y0).1) (t.toCell pay xpay n :: (xpay y0).2)) =
+      .ok (t.meaning, t.extras, y0) := by
   have h0 : ¬ ((0 : Nat) = tyLibrary) := by decide
   have h1 : ¬ ((0 : Nat) = tyPruned) := by decide
-  have hsk := hskip y0 [] []
+  have hsk := hx y0 [] []
   simp only [List.append_nil] at hsk
-  simp only [unmarshalAugE, ty_ordinary, bits_ordinary, refs_ordinary, h0, h1, if_false, atree_toCell_ty]
-  rw [mapInnerAug_toCell skipX C pay xpay hskip n hn t hdec n [] (n + 1) hv (by simp) (Nat.lt_succ_self n)]
+  simp only [unmarshalAugE, unmarshalAug, ty_ordinary, bits_ordinary, refs_ordinary, h0, h1, if_false, atree_toCell_ty]
+  rw [mapInnerAug_toCell xdec zero C pay xpay hx n hn t hdec n [] (n + 1) hv (by simp) (Nat.lt_succ_self n)]
   simp [hsk]
+
+/-- the empty augmented dictionary `ahme_empty$0 extra:Y` decodes to no entries and its extra -/
+theorem aug_decode_empty {Y : Type} (xdec : XDec Y) (zero : Y) (C : Codec V) (xpay : Y → List Bool × List Cell)
+    (hx : DecodesExtra xdec xpay) (n : Nat) (y0 : Y) :
+    unmarshalAugE xdec zero C n (Cell.ordinary (false :: (xpay y0).1) (xpay y0).2) = .ok ([], .leaf zero, y0) := by
+  have h0 : ¬ ((0 : Nat) = tyLibrary) := by decide
+  have hsk := hx y0 [] []
+  simp only [List.append_nil] at hsk
+  simp [unmarshalAugE, h0, hsk]
+
+/-- a bare `HashmapAug n X Y` stored inline (e.g. `AccountBlock.transactions`) -/
+theorem aug_inline_decode_any_valid {Y : Type} (xdec : XDec Y) (zero : Y)
+    (C : Codec V) (pay : V → List Bool × List Cell) (xpay : Y → List Bool × List Cell)
+    (hx : DecodesExtra xdec xpay) (n : Nat) (hn : n < 2 ^ 64)
+    (t : ATree V Y) (hv : t.Valid n) (hdec : ∀ kv ∈ t.meaning, DecodesValue C pay kv.2) :
+    unmarshalAug xdec zero C n (t.toCell pay xpay n) = .ok (t.meaning, t.extras) := by
+  have h0 : ¬ ((0 : Nat) = tyLibrary) := by decide
+  simp only [unmarshalAug, atree_toCell_ty, h0, if_false]
+  rw [mapInnerAug_toCell xdec zero C pay xpay hx n hn t hdec n [] (n + 1) hv (by simp) (Nat.lt_succ_self n)]
+  simp
+
+/-! ## No silent corruption: arbitrary slices, colliding keys, the typed layer -/
+
+/-- Soundness of Marshal for ANY slice of `n`-bit keys, duplicates allowed (e.g. two typed keys outside their domain that
+truncate to the same bits): whenever Marshal succeeds the keys were pairwise distinct and Unmarshal returns exactly the
+given entries in ascending key-bit order. Colliding keys therefore make Marshal fail; they never overwrite or drop
+OTHER entries. -/
+theorem marshal_sound (C : Codec V) (pay : V → List Bool × List Cell) (n : Nat) (kvs : List (Key × V))
+    (hw : ∀ kv ∈ kvs, kv.1.length = n) (hfit : ∀ kv ∈ kvs, Fits C pay n kv.2) (c : Cell)
+    (h : marshalE C n kvs = .ok c) :
+    (keysOf kvs).Nodup ∧ unmarshalE C n c = .ok (sortKV kvs) := by
+  have hnd : (keysOf kvs).Nodup := by
+    cases kvs with
+    | nil => simp [keysOf]
+    | cons x rest =>
+      have hmax : maxKeyLen (x :: rest) = n := maxKeyLen_eq n _ (by simp) hw
+      simp only [marshalE, marshal, List.isEmpty_cons, Bool.false_eq_true, if_false, hmax] at h
+      cases he : encodeMap C (n + 1) (sortKV (x :: rest)) (n : Int) with
+      | ok r =>
+        have hp := sortKV_perm (x :: rest)
+        have hs := encodeMap_ok_strict C (n + 1) n _ r (fun kv hkv => hw kv (hp.mem_iff.mp hkv))
+          (sortKV_weak n _ hw) he
+        exact (hp.map Prod.fst).nodup (sortedBy_nodup lexLt lexLt_irrefl _ hs)
+      | err e => rw [he] at h; cases h
+      | panic p => rw [he] at h; cases h
+  refine ⟨hnd, ?_⟩
+  obtain ⟨c', h1, h2, _⟩ := (hashmapE_roundtrip C pay n kvs hnd hw hfit).2
+  rw [h1] at h
+  cases h
+  exact h2
+
+/-- the typed layer, integer keys inside their domain: `WriteInt` writes the two's complement encoding the model uses -/
+theorem encIntKey_in_range (n : Nat) (v : Int) (hn : 2 ≤ n) (hlo : -(2 ^ (n - 1) : Int) ≤ v) (hhi : v < (2 ^ (n - 1) : Int)) :
+    ∃ k, encIntKey n v = .ok k ∧ k.length = n ∧ Bits.bitsToInt k = v :=
+  encIntKey_inRange n v hn hlo hhi
+
+/-- `NewHashmapE(keys, values)` with as many values as keys is the list-of-pairs dictionary of the model; with fewer
+values than keys Marshal is an error (never a wrong tree) and Items() panics with an index error -/
+theorem slices_agree (C : Codec V) (n : Nat) (keys : List Key) (values : List V) :
+    (values.length = keys.length → marshalSlicesE C n keys values = marshalE C n (keys.zip values) ∧
+      itemsSlices keys values = .ok (keys.zip values)) ∧
+    (values.length < keys.length → (marshalSlicesE C n keys values).isErr = true ∧
+      (itemsSlices keys values).isPanic = true) :=
+  ⟨slices_eq C n keys values, slices_short C n keys values⟩
+
+/-- BitsN keys: `bytes.Compare` on the Go byte arrays is exactly the ascending bit order of the encoded keys, so for
+these types `Put`'s slice order is already the order `encodeMap` needs -/
+theorem bytes_compare_is_bit_order (a b : List UInt8) (h : a.length = b.length) :
+    ltBytes a b = lexLt (Bits.bytesToBits a) (Bits.bytesToBits b) :=
+  ltBytes_eq_lexLt a b h
+
+/-! ## Cell capacity -/
+
+/-- the size part of `Fits` is monotone in the key width -/
+theorem size_fits_mono (n N b : Nat) (hn : n ≤ N) (h : b + N + 2 + minBitsRequired N ≤ 1023) :
+    b + n + 2 + minBitsRequired n ≤ 1023 := by
+  have := minBits_mono hn
+  omega
+
+/-- Marshal never overflows a cell for the key types the library ships: with any key width up to 512 bits (Bits512 is the
+widest) every value of at most 499 bits and 4 refs fits; with integer keys (≤ 64 bits) values up to 950 bits fit; with
+256-bit keys up to 756. (1023 = 2 + bitlength n + n + value bits is attained, so these are the exact limits.) -/
+theorem encode_never_overflows (C : Codec V) (pay : V → List Bool × List Cell) (n : Nat) (lt : Key → Key → Bool)
+    (ops : List (Key × V)) (hnd : (keysOf ops).Nodup) (hw : ∀ kv ∈ ops, kv.1.length = n)
+    (hval : ∀ kv ∈ ops, C.enc kv.2 = .ok (pay kv.2) ∧ (pay kv.2).2.length ≤ 4 ∧ DecodesValue C pay kv.2 ∧
+      ((n ≤ 512 ∧ (pay kv.2).1.length ≤ 499) ∨ (n ≤ 256 ∧ (pay kv.2).1.length ≤ 756) ∨
+       (n ≤ 64 ∧ (pay kv.2).1.length ≤ 950))) :
+    ∃ c, marshalE C n (buildPut lt ops) = .ok c := by
+  have hfit : ∀ kv ∈ ops, Fits C pay n kv.2 := by
+    intro kv hkv
+    obtain ⟨he, hr, hd, hs⟩ := hval kv hkv
+    refine ⟨he, ?_, hr, hd⟩
+    rcases hs with ⟨h1, h2⟩ | ⟨h1, h2⟩ | ⟨h1, h2⟩
+    · exact size_fits_mono n 512 _ h1 (by have : minBitsRequired 512 = 10 := by decide
+                                          omega)
+    · exact size_fits_mono n 256 _ h1 (by have : minBitsRequired 256 = 9 := by decide
+                                          omega)
+    · exact size_fits_mono n 64 _ h1 (by have : minBitsRequired 64 = 7 := by decide
+                                         omega)
+  obtain ⟨c, h, _⟩ := build_encode_decode C pay n lt ops hnd hw hfit
+  exact ⟨c, h⟩
+
+/-! ## Dictionaries inside Merkle proofs (pruned subtrees) -/
+
+/-- Decoding a valid dictionary in which some subtrees are replaced by pruned-branch cells (what `mapInner` skips; a
+pruned root decodes as the empty dictionary) yields exactly the pairs of the un-pruned part, in order. -/
+theorem decode_pruned_valid (C : Codec V) (pay : V → List Bool × List Cell) (n : Nat) (hn : n < 2 ^ 64)
+    (p : PTree V) (hv : p.Valid n) (hdec : ∀ kv ∈ p.meaning, DecodesValue C pay kv.2) :
+    unmarshalE C n (wrapE (p.toCell pay n)) = .ok p.meaning := by
+  have h0 : ¬ ((0 : Nat) = tyLibrary) := by decide
+  have h1 : ¬ ((0 : Nat) = tyPruned) := by decide
+  have hmi := mapInner_ptoCell C pay n hn p hdec n [] (n + 1) hv (by simp) (Nat.lt_succ_self n)
+  cases p with
+  | pruned mask bits refs =>
+    have e : (Cell.mk tyPruned mask bits refs).ty = tyPruned := rfl
+    simp only [unmarshalE, wrapE, ty_ordinary, bits_ordinary, refs_ordinary, h0, if_false, PTree.toCell, e, if_true,
+      PTree.meaning]
+  | leaf l v =>
+    simp only [unmarshalE, wrapE, ty_ordinary, bits_ordinary, refs_ordinary, h0, if_false, unmarshal,
+      PTree.toCell, h1] at hmi ⊢
+    rw [hmi]; simp
+  | fork l lo hi =>
+    simp only [unmarshalE, wrapE, ty_ordinary, bits_ordinary, refs_ordinary, h0, if_false, unmarshal,
+      PTree.toCell, h1] at hmi ⊢
+    rw [hmi]; simp
+
+/-- …and relates to the full dictionary `t` the proof was cut from: the decoded pairs are a sublist (same order) of the
+full listing, and `Get k` on the decoded proof agrees with the full dictionary for every key whose path is not pruned —
+both for present keys (the value is revealed) and for absent ones (absence is revealed). -/
+theorem pruned_agrees_with_full (p : PTree V) (t : HTree V) (h : PTree.Prunes p t) (n : Nat) (hv : t.Valid n) :
+    p.Valid n ∧ p.meaning.Sublist t.meaning ∧ ∀ k, p.covers k = true → get p.meaning k = get t.meaning k :=
+  ⟨prunes_valid p t h n hv, prunes_sublist p t h, get_prunes p t h⟩
 
 /-! ## The defect repaired by `fix: Hashmap.MarshalTLB orders entries by their encoded key bits` (DESIGN §9 #10)
 
@@ -326,15 +462,32 @@ example : exampleTree.Valid 8 := by simp [exampleTree, HTree.Valid, Lbl.bits]
 example : unmarshalE u32Codec 8 (wrapE (exampleTree.toCell u32Pay 8)) = .ok [(i8 0, u32 10), (i8 3, u32 11)] := by
   decide
 
-/-- a 32-bit extra (e.g. `uint32`) skipped by dropping 32 bits satisfies `SkipsExtra` for 32-bit payloads -/
+/-- a 32-bit extra (e.g. `uint32`) read as 32 bits satisfies `DecodesExtra` on 32-bit payloads -/
 example : ∀ (y : List Bool) (rb : List Bool) (rr : List Cell), y.length = 32 →
     (fun (bits : List Bool) (refs : List Cell) =>
-      if bits.length < 32 then (Outcome.err "not enough bits" : Outcome (List Bool × List Cell)) else .ok (bits.drop 32, refs))
-      (y ++ rb) ([] ++ rr) = .ok (rb, rr) := by
+      if bits.length < 32 then (Outcome.err "not enough bits" : Outcome (List Bool × List Bool × List Cell))
+      else .ok (bits.take 32, bits.drop 32, refs))
+      (y ++ rb) ([] ++ rr) = .ok (y, rb, rr) := by
   intro y rb rr hy
   have h1 : ¬ ((y ++ rb).length < 32) := by simp; omega
   simp only [h1, if_false, List.nil_append]
-  rw [List.drop_append_of_le_length (by omega), List.drop_of_length_le (by omega)]
+  rw [List.drop_append_of_le_length (by omega), List.drop_of_length_le (by omega),
+    List.take_append_of_le_length (by omega), List.take_of_length_le (by omega)]
   simp
+
+/-- a proof of key 3 in `exampleTree`: the branch of key 0 is pruned; key 3 and every key leaving the tree above the
+pruned branch are covered, key 0 is not -/
+def examplePruned : PTree (List Bool) :=
+  .fork (.same false 6) (.pruned 1 [] []) (.leaf (.short [true]) (u32 11))
+
+example : PTree.Prunes examplePruned exampleTree := by
+  unfold examplePruned exampleTree
+  exact .fork _ (.pruned _ _ _ _) (.leaf _ _)
+
+example : examplePruned.covers (i8 3) = true ∧ examplePruned.covers (i8 64) = true ∧
+    examplePruned.covers (i8 0) = false := by decide
+
+/-- test on literals: the pruned example decodes to the revealed pair only -/
+example : unmarshalE u32Codec 8 (wrapE (examplePruned.toCell u32Pay 8)) = .ok [(i8 3, u32 11)] := by decide
 
 end Tongo.C05
